@@ -29,14 +29,26 @@ CHECKS = {
    technique='property-based testing against an exact big-integer model of the RFC 0020 formulas; exhaustive enumeration of compact exponents x sampled mantissas',
    text='Pure arithmetic inputs (epoch statistics incl. degenerate ones, compact encodings, remainders) are evaluated by the code and by an exact arbitrary-precision model written in the harness; bounds, formulas, bookkeeping, issuance sums, compact/difficulty consistency, PoW acceptance and epoch-successor logic are compared.',
    note='Exact agreement is demanded only where the RFC intermediates fit the 256-bit arithmetic the code documents; beyond that only no-panic/bounds (labelled extreme-domain).'),
+ 'C08': dict(level='fault_enumeration', ref='DESIGN.md §2 C08',
+   technique='property-based testing of block-import histories with enumerated crash points: every database commit x {before, after} injected as process abort in child processes, recovery compared with the reference model and with the never-crashed run',
+   text='Generated histories (reorgs, invalid blocks, orphan deliveries) run on a persistent directory in a child process; a dry run logs the commits, then the history is re-run with an abort injected at each commit point (all of them when the history is small, all before-points plus a window of after-points otherwise), some recoveries are crashed again; a recovery child reopens the directory, waits for the start-up rescan, and its raw columns are compared with the model replay of the recovered tip; stored-but-unverified blocks must be picked up without re-delivery; after the remaining blocks are delivered the state must equal the never-crashed run.',
+   note='Crash model is process death at a commit boundary (everything written reached the OS); torn writes are RocksDB\'s contract. Which commit carries an index inside an asynchronous burst follows the OS scheduler; the verdict uses the state found at reopen.'),
  'C09': dict(level='fault_enumeration', ref='DESIGN.md §2 C09',
    technique='property-based testing (proptest operation histories) with enumerated crash states against a Vec<Vec<u8>> reference model',
    text='Generated append/truncate/retrieve/sync/reopen histories over FreezerFiles with tiny file-size limits; for every history the crash states of the un-synced tail (head data file x index cut independently to every length, missing/empty head file) are enumerated (exhaustively when the product is small), each re-opened and compared item by item with a Vec model, then used further and re-opened again. Fault enumeration is the right level because the crash-state space per history is finite and small while the history space is sampled.',
    note='Crash model is the statement\'s: byte-prefix cuts of the two files written since the last sync; no torn sectors. tmpfs scratch directory (fsync is a no-op there).'),
+ 'C10': dict(level='fault_enumeration', ref='DESIGN.md §2 C10',
+   technique='property-based testing of chains with freeze passes at generated points: query battery before/after/restart against the reference model, what-moved invariants over raw rows, and enumerated crash points inside the freeze pass (commit hook + freezer fail-points) in child processes',
+   text='Chains of several short epochs with forks at heights that become frozen are imported into a node with the freezer; synchronous freeze passes run at generated points (twice in a row, right after a reorg); every main-chain block is queried through every getter (block, packed block, header, body, tx hashes, cellbase, uncles, proposals, extension, transactions with location, ancestors, cells, the data-loader view scripts see) before, between and after passes and after a restart and compared with the model; raw rows are diffed to check what moved; freeze passes are re-run in child processes with an abort at every commit / file-append point and the directory must reopen with no main-chain block lost.',
+   note='Readers concurrent with a pass and reorgs through frozen heights are not generated; MAX_FREEZE_LIMIT is never binding at these sizes.'),
  'C13': dict(level='exploration', ref='DESIGN.md §2 C13',
    technique='stateful property-based testing on a mine-mode node: templates are sealed and submitted to the same node (must be accepted) and rebuilt bit-for-bit by the reference model from their free fields',
    text='A generated sequence of pool submissions (chains, diamonds), template requests, mined templates, competing side blocks (uncles, reorgs) and clock advances drives a real node with a block assembler; every template on the current tip is converted the way a miner does and (a) submitted to the node\'s own pipeline, (b) rebuilt by the reference model from its timestamp, uncles, proposals, transactions and cellbase witness: the two blocks must be identical, which pins epoch, target, DAO field, reward amount and lock, chain-root extension and all roots; committed transactions must be committable in the window, parents first, conflict free.',
    note='update_interval_millis = 0 (the assembler handles notifications in order); the per-request RPC limits are counted, not judged (the statement speaks of consensus limits). Candidate finding "template older than median time" was analysed and dismissed (with an odd median window at most 18 of 37 timestamps can exceed the tip\'s).'),
+ 'C14': dict(level='exploration', ref='DESIGN.md §2 C14',
+   technique='differential property-based testing: identical operation sequences on a node with warm caches and on a node with every cache disabled, verdicts / block exts / query answers compared with each other and with the reference model',
+   text='Two real nodes receive the same generated sequence of block imports (side branches, invalid blocks that get deleted, reorgs), pool submissions later committed (same tx hash with different witnesses, since/maturity verdicts that differ between pool and commit position, DAO withdrawals) and queries for known, deleted and not-yet-known hashes; one runs with default or tiny caches, the reference with cache capacity 0 (store caches and the tx-verification cache). Every verdict, BlockExt (fees, cycles, sizes), reported cycles/fee and query answer must be identical, and equal to the model where the model knows it.',
+   note='Operations are sequential with quiescence in between (cache effects needing two blocks in flight are C01\'s). The VM-version-change reuse of cached script results (only reachable on specs that schedule the ckb2023 fork in the future) is a known finding.'),
  'C15': dict(level='exploration', ref='DESIGN.md §2 C15',
    technique='schema-driven property-based testing: independent molecule interpreter (generator + strict/compatible verifier) vs generated code, JSON round trips, hash-commitment mutation relations',
    text='A parser/interpreter of the repository .mol schemas written in the harness generates values and canonical bytes for all 127 types and decides canonicity of arbitrary/mutated bytes; the generated Rust types must agree. JSON conversions round-trip, and hash commitments are checked by single-field mutations against hashes recomputed from the documented definitions.',
@@ -53,6 +65,14 @@ CHECKS = {
    technique='model-based property testing: append/rollback walks with reorgs on the real RocksDB indexer (and the real sync loop on a node) vs a brute-force filter over the reference chain; rollback-inverse metamorphic relation on answers and raw rows',
    text='Generated chain walks with reorgs over a script universe built to collide (shared code hashes, args that are prefixes of one another, empty and zero args) drive the real indexer; after every append and rollback the indexer tip and a battery of get_cells / get_transactions / get_cells_capacity queries (all filters, both orders, page sizes 1..5 with cursor chaining) are compared with a brute-force filter over the model; append followed by rollback must restore every answer and the query-visible raw rows.',
    note='Scope is the RocksDB indexer; the rich-indexer (sqlite) is not attached. One genuine defect (prefix search false positive caused by the key layout) is tolerated as a known finding by exactly its predicate.'),
+ 'C19': dict(level='exploration', ref='DESIGN.md §2 C19',
+   technique='property-based testing on real nodes with an independent MMR implementation and an independent GCS filter decoder: committed roots, served roots and proofs, filter contents and filter-hash chain compared after every reorg',
+   text='Every block is built with the reference model\'s own chain-root (independent MMR), so acceptance is the first oracle and a flipped root must be rejected; after every quiescent point the node\'s chain_root_mmr(k) root and generated membership proofs are compared with the model (also after reorgs to a shorter but heavier chain and regrowth past the old length), proofs must fail against the abandoned branch and with a wrong leaf; with the block-filter service running (started at generated points, reorgs while it lags) every main-chain filter is decoded and must match the lock/type hashes of all outputs and spent inputs, and filter hashes must chain from genesis.',
+   note='The light-client protocol handlers themselves are not driven (they need a protocol context); the store/snapshot API they wrap is. One timing-dependent defect of the filter builder is a known finding.'),
+ 'C20': dict(level='exploration', ref='DESIGN.md §2 C20',
+   technique='model-based property testing in lock step on a persistent real node: proposal view vs reference window sets after extensions, reorgs of every depth class, truncates and restarts; accept/reject probes against the verifier',
+   text='Operation lists (plan steps with proposals in blocks and uncles, reorgs targeted at depths around w_close and w_far, truncate, restart of the node on the same directory) run on the model and a real node; at every tip snapshot.proposals().set()/gap() must equal the model\'s window sets, the restarted node\'s rebuilt view must equal the incremental one, blocks committing an id in the set are accepted and ids in the gap / outside are rejected, and pooled entries must not stay Proposed after their id left the window.',
+   note='Ids dropped although still in the window cannot be observed without a pool hook (the pool re-promotes them); the observable direction is checked.'),
 }
 NOT_YET = 'check not built yet in this round (see DESIGN.md §5 build order); no claim is made'
 
